@@ -2,6 +2,7 @@ package refcodec
 
 import (
 	"bytes"
+	"strings"
 	"encoding/base64"
 	"encoding/json"
 	"fmt"
@@ -349,17 +350,19 @@ func (r *Resolver) jsonMaybe(o *JSONOpts, c *schemagen.Comb, args []schemagen.Ar
 	if inner == nil {
 		inner = r.Zero(it)
 	}
+	appliedBefore := o.Applied
 	b, err := r.JSON(o, it, inner)
 	if err != nil {
 		return nil, err
 	}
+	carries := o.Applied && !appliedBefore // the requested invalid form sits inside the value: it must be written
 	if o.site("maybe-false-value") {
 		return []byte(`{"ok":false,"value":` + string(b) + `}`), nil
 	}
 	switch {
 	case o.alt("maybe-without-ok"):
 		return []byte(`{"value":` + string(b) + `}`), nil
-	case r.IsEmpty(it, inner) && o.alt("maybe-without-value"):
+	case !carries && r.IsEmpty(it, inner) && o.alt("maybe-without-value"):
 		return []byte(`{"ok":true}`), nil
 	case o.alt("maybe-value-before-ok"):
 		return []byte(`{"value":` + string(b) + `,"ok":true}`), nil
@@ -721,13 +724,24 @@ func CanonDicts(v *Value) {
 		CanonDicts(e)
 	}
 	var cnt, arr *Value
-	switch v.Ctor {
-	case "dictionary":
-		if vec := v.Fields["_0"]; vec != nil {
-			cnt, arr = vec.Fields["_0"], vec.Fields["_1"]
+	// every "...Dictionary..." container of key/value pairs, whatever it is called (dictionary, dictionaryAny,
+	// intKeyDictionary, ...): either a typedef of a vector of pairs or "# [pair]" itself
+	if lc := strings.ToLower(v.Ctor); strings.Contains(lc, "dictionary") && !strings.Contains(lc, "field") {
+		if a := v.Fields["_1"]; a != nil && a.Kind == "array" {
+			cnt, arr = v.Fields["_0"], a
+		} else if vec := v.Fields["_0"]; vec != nil && vec.Kind == "struct" {
+			if a := vec.Fields["_1"]; a != nil && a.Kind == "array" {
+				cnt, arr = vec.Fields["_0"], a
+			}
 		}
-	case "dictionaryAny":
-		cnt, arr = v.Fields["_0"], v.Fields["_1"]
+	}
+	if arr != nil {
+		for _, e := range arr.Elems {
+			if e == nil || e.Fields["_0"] == nil || (e.Fields["_0"].Kind != "string" && e.Fields["_0"].Kind != "int" && e.Fields["_0"].Kind != "long") {
+				arr = nil // not a dictionary with a string/integer key
+				break
+			}
+		}
 	}
 	if arr == nil || len(arr.Elems) == 0 {
 		return
